@@ -50,6 +50,11 @@ def gen(seed, tier):
     pl["probes"] = probes
     if pl["objective"]["kind"] in ("stair", "abszero", "constant") and r.random() < 0.8:
         pl["objective"]["offset"] = 0.0  # best value exactly 0.0 reachable
+    if pl.get("entry") in ("tree", "steps") and seed % 6 == 1:
+        # the user calls run_metaepoch() and run_sprout() himself (the tree's metaepoch counter stays where it is)
+        pl["entry"] = "phases"
+        pl["phase_rounds"] = 3 + seed % 6
+        pl["faults"] = {k: v for k, v in pl.get("faults", {}).items() if k == "lsc_inject"}
     if "levels" in pl and seed % 7 == 0:
         P.nan_stratum(pl, seed)  # stored individuals with NaN fitness: looking must still not evaluate anything
     return pl
